@@ -16,8 +16,9 @@ CLAIMED = {
               "and the emitted host launcher are compiled by g++ against ~100-line shim headers per dialect and run under an emulation of "
               "the launch model (grid of blocks in seeded order, the threads of a block as simulated threads, barriers, atomics). Outputs must "
               "equal the generator's own sequential rendering of the kernel; no conflicting access pair may be unordered under the launch "
-              "model's happens-before; guard zones must stay silent. Recorded findings: @atomic dropped by the OpenCL and Metal translators, "
-              "@atomic blocks not compilable in the DPC++ translation."),
+              "model's happens-before; guard zones must stay silent. Recorded findings (KNOWN_FINDINGS.txt): @atomic dropped by the OpenCL and "
+              "Metal translators, general @atomic forms not compilable in the DPC++ translation, host-side variables not passed to device "
+              "kernels by the launcher backends, basic and general @atomic forms not excluding each other in OpenMP."),
         note=("The GPU hardware, vendor compilers and runtimes are stubs (shims + emulator): the check decides what the *translated text* does "
               "under the documented launch model, not what a vendor compiler would do with it. Blocks run sequentially; inter-block ordering is "
               "decided on the trace. Features a backend's translator rejects are counted, not judged."),
@@ -105,9 +106,11 @@ CLAIMED = {
         engine="procsim", category="exploration", design_ref="DESIGN.md section 4 (C07)",
         technique="deterministic simulation: seeded histories of header edits, include-graph changes, reverts and clock jumps interleaved with builds in fresh simulated processes; textual reference model of the current files",
         text=("Seeded histories of header edits (small content alphabet so equal contents, swaps and reverts are frequent), nested "
-              "#include toggles, reverts and clock jumps, interleaved with builds in fresh simulated processes on one cache. Every "
+              "#include toggles (quoted and angle includes through okl/include_paths), reverts and clock jumps, interleaved with builds on one "
+              "cache, each build in a fresh simulated process or 2-4 consecutive builds (and the edits between them, made by the process "
+              "itself) in one process; file times follow the simulated clock. Every "
               "build must terminate, exit cleanly and print the vector that a textual resolution of the current files gives."),
-        note=("Sequential builds only (concurrency is C09). Headers sit next to the kernel; include paths are not varied. A build still "
+        note=("Sequential builds only (concurrency is C09). A build still "
               "running after 200000 file-system calls counts as non-terminating."),
     ),
     "C10": dict(
@@ -124,7 +127,8 @@ CLAIMED = {
         technique="deterministic simulation: seeded crash injection (kill before/after every file-system system call, torn writes) into a real build, follow-up builds as oracle",
         text=("Real OCCA processes build kernels under a ptrace/seccomp simulator that kills the builder at a chosen file-system "
               "system call (before it, after it, or after a torn write), including inside the compiler's output writes; two "
-              "fault-free follow-up processes on the same cache must succeed and compute the model's output. Thorough tier "
+              "fault-free follow-up processes on the same cache must succeed and compute the model's output; for file kernels the "
+              "included header may be edited (or reverted) between the crash and the follow-ups, which must then run the new contents. Thorough tier "
               "enumerates every kill point x fault kind of every scenario class (finite list per scenario), quick tier samples "
               "them with a bias to in-flight writes. Fault enumeration is the right level: the quantifier is 'every kill point', "
               "and for one build that is a finite list the simulator can walk."),
@@ -137,7 +141,8 @@ CLAIMED = {
         technique="deterministic simulation: seeded interleaving of 2-16 real processes at file-system system calls (few-preemption, PCT, uniform strategies)",
         text=("2-16 real OCCA processes build the same kernels against one cache under a simulator that runs exactly one of them at a "
               "time and chooses, from the seed, who executes its next file-system system call; every process must succeed with the "
-              "model's output and a follow-up process must reuse the cache without compiling. Seeded search over schedules; failures "
+              "model's output and a follow-up process must reuse the cache without compiling; in a quarter of the scenarios some (never all) "
+              "of the processes are killed mid-build and only the survivors and the follow-up are judged. Seeded search over schedules; failures "
               "are minimised to a few context switches and replayed exactly."),
         note=("Interleaving granularity = system calls on paths under the simulated tree. Clock, entropy and compiler are simulated "
               "(LD_PRELOAD shim, stub compiler with memoised real g++ output). Sampling, not enumeration."),
